@@ -8,7 +8,8 @@
 (*   rows, cols, win (odd), s (subpix), measure, band,                     *)
 (*   L, R   : [band][row][col] integer radiometry (1-based),               *)
 (*   mL, mR : [row][col] in {0 valid, 1 no-data, 2 invalid},               *)
-(*   dmin, dmax : [row][col] per-pixel interval (integers),                *)
+(*   dmin8, dmax8 : [row][col] per-pixel interval bounds times 8 (bounds    *)
+(*                  may be fractional: they come from a float raster),     *)
 (*   gmin, gmax : global interval = the sampled disparities                *)
 (* A disparity sample is an integer D = s * d (d a multiple of 1/s).       *)
 (* Costs are scaled so that they are integers: SAD by s, SSD by s*s.       *)
@@ -42,7 +43,7 @@ RightComputable(P, r, c, D) ==
       /\ ~Bad(P, P.mR, r, q)
       /\ (Fr(P, D) # 0 => ~Bad(P, P.mR, r, q + 1))
 
-InInterval(P, r, c, D) == D >= P.s * P.dmin[r][c] /\ D <= P.s * P.dmax[r][c]
+InInterval(P, r, c, D) == 8 * D >= P.s * P.dmin8[r][c] /\ 8 * D <= P.s * P.dmax8[r][c]
 
 Computable(P, r, c, D) == /\ WindowInside(P, r, c)
                           /\ ~Bad(P, P.mL, r, c)
